@@ -126,9 +126,8 @@ Fixpoint prefix_b {A} (eqb : A -> A -> bool) (needle hay : list A) : bool :=
   | _ :: _, [] => false
   end.
 
-(* std::string::find / std::search: needle occurs as a contiguous infix.
-   std::search returns `first` for an empty needle, which equals `last` only
-   when the haystack is empty too: the C++ then reports "not found". *)
+(* std::string::find / std::search: needle occurs as a contiguous infix
+   (an empty needle is found in anything, including an empty haystack) *)
 Fixpoint infix_b {A} (eqb : A -> A -> bool) (needle hay : list A) : bool :=
   match hay with
   | [] => match needle with [] => true | _ => false end
@@ -163,9 +162,7 @@ Definition run_pred (P : params) (w : predword) (stk : stack) : option (pres * l
   | PWFind =>
     match stk with
     | VStr n _ :: VStr h _ :: _ => Some (pres_of_bool (infix_b N.eqb n h), [])
-    | VSeq n _ :: VSeq h _ :: _ =>
-      (* std::search on an empty haystack finds nothing, even an empty needle *)
-      Some (pres_of_bool (match h with [] => false | _ => infix_b (velem_eqb P) n h end), [])
+    | VSeq n _ :: VSeq h _ :: _ => Some (pres_of_bool (infix_b (velem_eqb P) n h), [])
     | _ => Some (PFail, [SErr])
     end
   | PWStarts =>
